@@ -804,6 +804,17 @@ class Conv:
         """sqrt(u), u a Frac.  sqrt(s*N/D) = sqrt(a*b*N*D) / (b*D)  with s = a/b, D > 0 required."""
         if u.is_zero():
             return self.zero
+        # denominator factors with an even exponent whose sign is unknown: sqrt(N / (p^2k q)) = sqrt(N/q) / sqrt(p^2k),
+        # with sqrt(p^2k) (= |p|^k) a radical generator of its own (R >= 0, R^2 = p^2k); valid wherever p != 0
+        if u.d and self.oracle is not None:
+            even = {k: (p, e) for k, (p, e) in u.d.items() if e % 2 == 0 and not self.oracle.implied_pos(Frac(Fraction(1), p))}
+            if even:
+                rest_d = {k: v for k, v in u.d.items() if k not in even}
+                inner = self.radical(node, Frac(u.s, None, rest_d, nf=dict(u.nf)))
+                for k, (p, e) in even.items():
+                    sq = S.Sym("fn", ("sqrt", S.Sym("var", ("radicand!%d!%d" % (node.id, len(self.radkeys)),))))
+                    inner = inner * self.radical(sq, Frac(Fraction(1), p.pow(e))).inv()
+                return inner
         a, b = u.s.numerator, u.s.denominator
         if a < 0:
             raise Unsupported("radicand with negative leading scalar")
